@@ -93,6 +93,25 @@ theorem sumBy_pos [LinearOrder F] [IsStrictOrderedRing F] {f : α → F} {l : Li
     · exact add_pos_of_nonneg_of_pos (h y (List.mem_cons_self))
         (ih (fun z hz => h z (List.mem_cons_of_mem _ hz)) hx')
 
+theorem sumBy_map (f : β → F) (g : α → β) (l : List α) : sumBy f (l.map g) = sumBy (fun x => f (g x)) l := by
+  induction l with
+  | nil => simp
+  | cons x l ih => simp [ih]
+
+theorem sumBy_filter (f : α → F) (p : α → Bool) (l : List α) :
+    sumBy f (l.filter p) = sumBy (fun x => if p x then f x else 0) l := by
+  induction l with
+  | nil => simp
+  | cons x l ih =>
+    by_cases h : p x = true
+    · simp [List.filter_cons, h, ih]
+    · simp [List.filter_cons, h, ih]
+
+theorem sumBy_const_one (l : List α) : sumBy (fun _ => (1 : F)) l = (l.length : F) := by
+  induction l with
+  | nil => simp
+  | cons x l ih => simp only [sumBy_cons, ih, List.length_cons]; push_cast; ring
+
 /-- a one-hot sum over a duplicate-free list picks out its value -/
 theorem sumBy_onehot [DecidableEq β] (S : List β) (hS : S.Nodup) (s₀ : β) (h₀ : s₀ ∈ S) (c : F) :
     sumBy (fun s => if s₀ = s then c else 0) S = c := by
